@@ -179,7 +179,7 @@ func (p *commitStore) getCommitForCommitKey(
 	}
 	if !externalCommit.isValid() {
 		invalidReason = "invalid"
-		return nil, err
+		return nil, errors.New("invalid commit file")
 	}
 	digest, err := bufmodule.ParseDigest(externalCommit.Digest)
 	if err != nil {
@@ -188,7 +188,7 @@ func (p *commitStore) getCommitForCommitKey(
 	}
 	if commitKey.DigestType() != digest.Type() {
 		invalidReason = "mismatched digest type"
-		return nil, err
+		return nil, errors.New("mismatched digest type")
 	}
 	moduleFullName, err := bufparse.NewFullName(
 		commitKey.Registry(),
